@@ -51,6 +51,9 @@ def fault_scenarios(clsname):
         "nested-clear": ((("nav", 0, ckey),), (), (("op", 1, "clear", ()),)),
         "read": ((), (), (("op", 0, "len", ()),)),
         "rejected-value": ((), (), (("op", 0, "setitem", ("b" if k == "dict" else 0, ("#bad", "object"))),)),
+        "reset-rejected-value": ((), (), (("op", 0, "reset", ({"b": ("#bad", "object")} if k == "dict" else [1, ("#bad", "set")],)),)),
+        "nested-reset-rejected-value": ((("nav", 0, ckey),), (), (("op", 1, "reset", ({"b": ("#bad", "object")},)),)),
+        "update-rejected-value": ((), (), (("op", 0, "update", ({"b": ("#bad", "object")}, {})) if k == "dict" else ("op", 0, "extend", ([1, ("#bad", "set")],)),)),
     }
     if k == "dict":
         out["update"] = ((), (), (("op", 0, "update", ({"u": 1}, {})),))
@@ -176,7 +179,7 @@ def run_fault_task(task):
         for i, kind_ in enumerate(calls):
             for err in ERRORS.get(kind_, ()):
                 cases.append((i, err))
-        if name == "rejected-value":
+        if name.endswith("rejected-value"):
             cases = [(10 ** 6, 0)]  # no environment fault: the operation itself must fail
         raised = 0
         for fail in cases:
@@ -211,6 +214,8 @@ def lock_bodies(kind_, o, h, other_res):
         "read": [("op", h, "len", ())],
         "obj-ctx": [("enter", o), w, ("exit", o)],
         "cls-ctx": [("enter_cls", None), w, ("exit_cls",)],
+        "cls-ctx-empty": [("enter_cls", None), ("exit_cls",)],
+        "leave-cls": [("exit_cls",)],  # leaves the backend-wide context the MAIN thread entered
         "setcap": [("setcap", 0)],
         "new": [("new", 0)],
         "setfilename": [("setfilename", o, other_res)],
@@ -227,20 +232,24 @@ def lock_programs(tier):
         buffered = env.is_buffered_class(c)
         names = ["write", "reset", "clear", "read", "new", "setfilename"]
         if buffered:
-            names += ["obj-ctx", "cls-ctx", "setcap"]
+            names += ["obj-ctx", "cls-ctx", "cls-ctx-empty", "leave-cls", "setcap"]
         topos = {"same-object": ((0,), (0, 0)), "two-objects": ((0, 0), (0, 1)), "distinct-files": ((0, 1), (0, 1))}
         for topo, (objects, objs_of_thread) in topos.items():
             for a, b in itertools.combinations_with_replacement(names, 2):
                 if tier == "quick" and topo == "distinct-files" and not buffered:
                     continue
                 for ctx in ((None, ("cls", None)) if buffered else (None,)):
-                    if ctx is not None and ("cls-ctx" in (a, b) or "setfilename" in (a, b)):
+                    if ctx is not None and ("cls-ctx" in (a, b) or "cls-ctx-empty" in (a, b) or "setfilename" in (a, b)):
                         continue  # re-pointing inside a buffered context is outside the property
+                    if ("leave-cls" in (a, b)) != (ctx is not None and "leave-cls" in (a, b)):
+                        continue  # leave-cls needs the context entered by main
+                    if a == b == "leave-cls":
+                        continue
                     ta = lock_bodies(k, objs_of_thread[0], objs_of_thread[0], 2)[a]
                     tb = lock_bodies(k, objs_of_thread[1], objs_of_thread[1], 2)[b]
                     if a == b == "setfilename" and topo == "same-object":
                         continue
-                    if "setfilename" in (a, b) and {a, b} & {"obj-ctx", "cls-ctx", "setcap"}:
+                    if "setfilename" in (a, b) and {a, b} & {"obj-ctx", "cls-ctx", "cls-ctx-empty", "leave-cls", "setcap"}:
                         continue  # re-pointing a collection while it is buffered is outside the property
                     cfg = seq.Config(c, initial=(INIT[k],) * 3, objects=objects, label=c)
                     progs.append({"label": "%s/%s/%s/%s||%s" % (c, topo, "ctx" if ctx else "noctx", a, b), "cfg": cfg, "ctx": ctx,
